@@ -164,27 +164,38 @@ def alone_facts(hdr, workdir):
             facts[recmap[sym] + '.payload'] = ('payoff', v)
     # C++ only: is the name an enumerator (of some enum type) or a plain integer?  (its *type* is part of its meaning)
     kinds = {}
+    absent = set()
     names = [sym for sym, (kind, v) in facts.items() if kind in ('enum', 'macro')]
-    if names:
+    srcpp = src[:-2] + '.cpp'
+    for attempt in range(6):
+        if not names:
+            break
         lines = ['#include <stddef.h>', '#include <type_traits>', '#include "%s"' % hdr]
         for n in names:
             lines.append('extern const long long verif_k_%s = std::is_enum<decltype(%s)>::value ? 1 : 0;' % (n, n))
-        srcpp = src[:-2] + '.cpp'
         open(srcpp, 'w').write('\n'.join(lines) + '\n')
-        rc, out, err = clang(['-x', 'c++', '-std=c++17', '-S', '-emit-llvm', '-Wno-everything', '-o', srcpp + '.ll', srcpp] + inc_args())
+        rc, out, err = clang(['-x', 'c++', '-std=c++17', '-S', '-emit-llvm', '-ferror-limit=0', '-Wno-everything', '-o', srcpp + '.ll', srcpp] + inc_args())
         if rc == 0:
             m2 = irparse.parse_module(open(srcpp + '.ll').read(), srcpp)
             for name, g in m2.globals.items():
                 if name.startswith('verif_k_') and g.init is not None:
                     kinds[name[8:]] = (g.init[1] if g.init[0] == 'c' else 0)
-        else:
+            break
+        # a name the header declares in C only (e.g. the C99 fallback of a static-assertion macro) has no C++ fact
+        gone = set(m.group(1) for m in re.finditer(r"error: use of undeclared identifier '(\w+)'", err))
+        gone &= set(names)
+        if not gone:
             return None, 'C++ kind unit for %s: %s' % (hdr, err[-300:])
-    return {'facts': facts, 'tags': ds['tags'], 'macros': ms, 'kinds': kinds}, None
+        absent |= gone
+        names = [n for n in names if n not in gone]
+    return {'facts': facts, 'kinds': kinds, 'cxx_absent': absent}, None
 
 
-def assert_lines(hdr, facts, lang, kinds=None):
+def assert_lines(hdr, facts, lang, kinds=None, cxx_absent=()):
     kw = '_Static_assert' if lang == 'c99' else 'static_assert'
     out = []
+    if lang != 'c99' and cxx_absent:
+        facts = {k: v for k, v in facts.items() if k not in cxx_absent}
     if lang != 'c99' and kinds:
         for sym, k in sorted(kinds.items()):
             out.append('static_assert((std::is_enum<decltype(%s)>::value ? 1 : 0) == %d, "%s|%s");' % (sym, k, hdr, sym))
@@ -264,8 +275,8 @@ def run(tier, res, seed):
             for lang in LANGS:
                 text = '#include <stddef.h>\n' + ('#include <type_traits>\n' if lang != 'c99' else '') + \
                     '#include "%s"\n#include "%s"\n' % (a, b) + UNDEF_SA
-                text += '\n'.join(assert_lines(a, alone[a]['facts'], lang, alone[a]['kinds']) +
-                                  assert_lines(b, alone[b]['facts'], lang, alone[b]['kinds'])) + '\n'
+                text += '\n'.join(assert_lines(a, alone[a]['facts'], lang, alone[a]['kinds'], alone[a]['cxx_absent']) +
+                                  assert_lines(b, alone[b]['facts'], lang, alone[b]['kinds'], alone[b]['cxx_absent'])) + '\n'
                 jobs.append(('%s>%s' % (a, b), lang, text))
     pair_syms = set()
     seen = set()
@@ -301,7 +312,7 @@ def run(tier, res, seed):
             text = '#include <stddef.h>\n' + ('#include <type_traits>\n' if lang != 'c99' else '') + \
                 ''.join('#include "%s"\n' % h for h in o) + UNDEF_SA
             for h in o:
-                text += '\n'.join(assert_lines(h, alone[h]['facts'], lang, alone[h]['kinds'])) + '\n'
+                text += '\n'.join(assert_lines(h, alone[h]['facts'], lang, alone[h]['kinds'], alone[h]['cxx_absent'])) + '\n'
             jobs.append((oname, lang, text))
     with ThreadPoolExecutor(16) as ex:
         for name, lang, rc, err in ex.map(compile_unit, jobs):
